@@ -7,71 +7,106 @@
 (* no handler is active.  One action per select arm / loop position.       *)
 (*   CheckBeforeSelect = FALSE is the pinned code (D5): the zero-handler   *)
 (*   test is only made after an event has been received.                   *)
+(*   SigBuf = 0 is the code before the D11 repair: the channel given to    *)
+(*   signal.Notify is unbuffered, and os/signal never blocks - a signal    *)
+(*   that arrives while main is not parked in the select (during the PT    *)
+(*   configuration, between two loop iterations, while closing listeners)  *)
+(*   is DROPPED and the shutdown request is lost.  SigBuf = n: a buffer of *)
+(*   n signals.  One slot is not enough either: SIGINT then SIGTERM while  *)
+(*   main is busy loses the SIGTERM (TermPrompt); two slots are, because   *)
+(*   ANY second signal ends the process.                                   *)
 (***************************************************************************)
-EXTENDS Integers, FiniteSets, TLC
+EXTENDS Integers, Sequences, FiniteSets, TLC
 
-CONSTANTS Handlers, MaxSignals, CheckBeforeSelect
+CONSTANTS Handlers, MaxSignals, CheckBeforeSelect, SigBuf
 
 VARIABLES hstate,      \* h -> "idle" | "wantStart" | "started" | "running" | "wantFinish" | "finished" | "done"
           num,         \* termMonitor.numHandlers (only touched inside wait)
-          phase,       \* "wait1" | "closing" | "wait2" | "returned"
-          sigChan,     \* a sender is blocked on sigChan with this signal, or "none"
+          phase,       \* "config" | "wait1" | "closing" | "wait2" | "returned"
+          sigChan,     \* the signals of the senders blocked on sigChan (termOnStdinClose etc.), in arrival order
           sigsSent,
-          gotEvent     \* loop position inside wait: TRUE = an event was just received, test pending
-vars == <<hstate, num, phase, sigChan, sigsSent, gotEvent>>
+          gotEvent,    \* loop position inside wait: TRUE = an event was just received, test pending
+          sigBuf,      \* the signals sitting in the Notify channel's buffer (a sequence, oldest first)
+          req          \* the signals the operating system has delivered to the process so far
+vars == <<hstate, num, phase, sigChan, sigsSent, gotEvent, sigBuf, req>>
 
 \* handlers that have started and not yet reported their finish to the monitor
 Active == {h \in Handlers : hstate[h] \in {"started", "running", "wantFinish"}}
 
-Init == /\ hstate = [h \in Handlers |-> "idle"] /\ num = 0 /\ phase = "wait1"
-        /\ sigChan = "none" /\ sigsSent = 0 /\ gotEvent = FALSE
+Init == /\ hstate = [h \in Handlers |-> "idle"] /\ num = 0 /\ phase = "config"
+        /\ sigChan = <<>> /\ sigsSent = 0 /\ gotEvent = FALSE /\ sigBuf = <<>> /\ req = {}
 
 ---- \* environment: handler goroutines and signal senders (logged as call / return events)
-StartCall(h)  == hstate[h] = "idle"     /\ hstate' = [hstate EXCEPT ![h] = "wantStart"]  /\ UNCHANGED <<num, phase, sigChan, sigsSent, gotEvent>>
-StartRet(h)   == hstate[h] = "started"  /\ hstate' = [hstate EXCEPT ![h] = "running"]    /\ UNCHANGED <<num, phase, sigChan, sigsSent, gotEvent>>
-FinishCall(h) == hstate[h] = "running"  /\ hstate' = [hstate EXCEPT ![h] = "wantFinish"] /\ UNCHANGED <<num, phase, sigChan, sigsSent, gotEvent>>
-FinishRet(h)  == hstate[h] = "finished" /\ hstate' = [hstate EXCEPT ![h] = "done"]       /\ UNCHANGED <<num, phase, sigChan, sigsSent, gotEvent>>
-SigSend(s)    == sigChan = "none" /\ sigsSent < MaxSignals /\ sigChan' = s /\ sigsSent' = sigsSent + 1
-                 /\ UNCHANGED <<hstate, num, phase, gotEvent>>
+StartCall(h)  == hstate[h] = "idle"     /\ hstate' = [hstate EXCEPT ![h] = "wantStart"]  /\ UNCHANGED <<num, phase, sigChan, sigsSent, gotEvent, sigBuf, req>>
+StartRet(h)   == hstate[h] = "started"  /\ hstate' = [hstate EXCEPT ![h] = "running"]    /\ UNCHANGED <<num, phase, sigChan, sigsSent, gotEvent, sigBuf, req>>
+FinishCall(h) == hstate[h] = "running"  /\ hstate' = [hstate EXCEPT ![h] = "wantFinish"] /\ UNCHANGED <<num, phase, sigChan, sigsSent, gotEvent, sigBuf, req>>
+FinishRet(h)  == hstate[h] = "finished" /\ hstate' = [hstate EXCEPT ![h] = "done"]       /\ UNCHANGED <<num, phase, sigChan, sigsSent, gotEvent, sigBuf, req>>
+SigSend(s)    == sigsSent < MaxSignals /\ sigChan' = Append(sigChan, s) /\ sigsSent' = sigsSent + 1
+                 /\ UNCHANGED <<hstate, num, phase, gotEvent, sigBuf, req>>
 
 ---- \* the monitor goroutine (main): not logged except for the returns of wait()
 InWait == phase \in {"wait1", "wait2"}
 TopCheck == /\ CheckBeforeSelect /\ phase = "wait2" /\ ~gotEvent /\ num = 0
-            /\ phase' = "returned" /\ UNCHANGED <<hstate, num, sigChan, sigsSent, gotEvent>>
+            /\ phase' = "returned" /\ UNCHANGED <<hstate, num, sigChan, sigsSent, gotEvent, sigBuf, req>>
 SelectEnabled == InWait /\ ~gotEvent /\ ~(CheckBeforeSelect /\ phase = "wait2" /\ num = 0)
 RecvStart(h)  == /\ SelectEnabled /\ hstate[h] = "wantStart"
                  /\ hstate' = [hstate EXCEPT ![h] = "started"] /\ num' = num + 1 /\ gotEvent' = TRUE
-                 /\ UNCHANGED <<phase, sigChan, sigsSent>>
+                 /\ UNCHANGED <<phase, sigChan, sigsSent, sigBuf, req>>
 RecvFinish(h) == /\ SelectEnabled /\ hstate[h] = "wantFinish"
                  /\ hstate' = [hstate EXCEPT ![h] = "finished"] /\ num' = num - 1 /\ gotEvent' = TRUE
-                 /\ UNCHANGED <<phase, sigChan, sigsSent>>
+                 /\ UNCHANGED <<phase, sigChan, sigsSent, sigBuf, req>>
 \* after an event: the bottom-of-loop test (pinned code) / back to the top (repaired code)
 AfterEvent == /\ InWait /\ gotEvent /\ gotEvent' = FALSE
               /\ phase' = IF ~CheckBeforeSelect /\ phase = "wait2" /\ num = 0 THEN "returned" ELSE phase
-              /\ UNCHANGED <<hstate, num, sigChan, sigsSent>>
+              /\ UNCHANGED <<hstate, num, sigChan, sigsSent, sigBuf, req>>
 \* a signal: wait1 returns (SIGINT: close listeners, then wait(true); SIGTERM: exit), wait2 returns
-RecvSig == /\ SelectEnabled /\ sigChan # "none"
-           /\ phase' = IF phase = "wait1" /\ sigChan = "INT" THEN "closing" ELSE "returned"
-           /\ sigChan' = "none" /\ UNCHANGED <<hstate, num, sigsSent, gotEvent>>
-CloseListeners == phase = "closing" /\ phase' = "wait2" /\ UNCHANGED <<hstate, num, sigChan, sigsSent, gotEvent>>
+\* (a buffered channel hands out its buffer first; blocked senders are served in arrival order)
+RecvSig == /\ SelectEnabled /\ (sigChan # <<>> \/ sigBuf # <<>>)
+           /\ LET fromBuf == sigBuf # <<>>
+                   s == IF fromBuf THEN Head(sigBuf) ELSE Head(sigChan) IN
+                /\ phase' = IF phase = "wait1" /\ s = "INT" THEN "closing" ELSE "returned"
+                /\ sigBuf' = (IF fromBuf THEN Tail(sigBuf) ELSE sigBuf) /\ sigChan' = (IF fromBuf THEN sigChan ELSE Tail(sigChan))
+           /\ UNCHANGED <<hstate, num, sigsSent, gotEvent, req>>
+\* the PT configuration (main is busy, not in wait yet)
+ConfigDone == phase = "config" /\ phase' = "wait1" /\ UNCHANGED <<hstate, num, sigChan, sigsSent, gotEvent, sigBuf, req>>
+CloseListeners == phase = "closing" /\ phase' = "wait2" /\ UNCHANGED <<hstate, num, sigChan, sigsSent, gotEvent, sigBuf, req>>
+\* a signal from the operating system, as os/signal delivers it: never blocking.  Unbuffered channel: it is handed over only
+\* if main is parked in the select at this very moment, otherwise it is dropped.  Buffered: kept if the buffer is free.
+OsSignal(s) ==
+    /\ sigsSent < MaxSignals /\ sigsSent' = sigsSent + 1 /\ req' = req \cup {s}
+    /\ IF SigBuf = 0
+       THEN /\ IF SelectEnabled
+               THEN phase' = (IF phase = "wait1" /\ s = "INT" THEN "closing" ELSE "returned")
+               ELSE phase' = phase                                                           \* dropped
+            /\ sigBuf' = sigBuf
+       ELSE /\ sigBuf' = (IF Len(sigBuf) < SigBuf THEN Append(sigBuf, s) ELSE sigBuf)         \* dropped when full
+            /\ phase' = phase
+    /\ UNCHANGED <<hstate, num, sigChan, gotEvent>>
 
-MonStep == TopCheck \/ AfterEvent \/ RecvSig \/ CloseListeners \/ \E h \in Handlers : RecvStart(h) \/ RecvFinish(h)
+MonStep == ConfigDone \/ TopCheck \/ AfterEvent \/ RecvSig \/ CloseListeners \/ \E h \in Handlers : RecvStart(h) \/ RecvFinish(h)
 EnvStep == \/ \E h \in Handlers : StartCall(h) \/ StartRet(h) \/ FinishCall(h) \/ FinishRet(h)
-           \/ \E s \in {"INT", "TERM"} : SigSend(s)
+           \/ \E s \in {"INT", "TERM"} : SigSend(s) \/ OsSignal(s)
 Next == MonStep \/ EnvStep
 Spec == Init /\ [][Next]_vars /\ WF_vars(MonStep)
              /\ \A h \in Handlers : WF_vars(FinishCall(h)) /\ WF_vars(StartRet(h))
+\* without the assumption that handlers finish: what SIGTERM must achieve on its own
+SpecNoHandlerFairness == Init /\ [][Next]_vars /\ WF_vars(MonStep)
 
 ---- \* properties
 \* the count is exactly the number of handlers the monitor has seen start and not finish
 CountMatches == num = Cardinality({h \in Handlers : hstate[h] \in {"started", "running", "wantFinish"}})
 CountNeverNegative == num >= 0
 \* wait(true) never returns on its own while a handler is active
-NoEarlyReturn == [][(phase = "wait2" /\ phase' = "returned" /\ sigChan' = sigChan) => num' = 0]_vars
+NoEarlyReturn == [][(phase = "wait2" /\ phase' = "returned" /\ sigChan' = sigChan /\ sigBuf' = sigBuf /\ sigsSent' = sigsSent) => num' = 0]_vars
 \* stuck = the monitor can take no step although a graceful shutdown is pending and nothing is active
 Stuck == phase = "wait2" /\ num = 0 /\ ~ENABLED MonStep
          /\ \A h \in Handlers : hstate[h] \notin {"wantStart", "wantFinish"}
 NeverStuck == ~Stuck
 \* liveness: a graceful shutdown completes as soon as no handler is active
 GracefulCompletes == (phase = "wait2") ~> (phase = "returned")
+\* a shutdown request is never lost, whenever it arrives: SIGTERM ends the process, SIGINT starts the graceful shutdown
+TermHonoured == ("TERM" \in req) ~> (phase = "returned")
+IntHonoured == ("INT" \in req) ~> (phase \in {"closing", "wait2", "returned"})
+\* SIGTERM ends the process even if handlers never finish (checked under SpecNoHandlerFairness)
+TermPrompt == ("TERM" \in req) ~> (phase = "returned")
 =============================================================================
